@@ -130,13 +130,15 @@ def nontrivial(line, obs):
 def kf_nested_mixed_mode(line, impl, model):
     """an attachment is opened while another one with a different show_prompt is open: the
     suppression mode is channel-global, so the outer stream follows the inner one's mode"""
-    return any(a != b for a, b in _nesting(line))
+    # (… and the implementation behaves exactly as the model of the unchanged code does: another misbehaviour on
+    # the same shape of case is a different finding)
+    return impl == model and any(a != b for a, b in _nesting(line))
 
 
 def kf_nested_holdback(line, impl, model):
     """an attachment is opened while another suppressing attachment is open: the hold-back buffer
     is channel-global, so bytes read before the inner attach can be flushed to the inner stream"""
-    return any(a == "0" and b == "0" for a, b in _nesting(line))
+    return impl == model and any(a == "0" and b == "0" for a, b in _nesting(line))
 
 
 def _prompt_change_while_suppressing(line):
@@ -155,13 +157,13 @@ def kf_prompt_change(line, impl, model):
     """the channel prompt is changed (assignment, with_prompt enter/exit, per-call prompt of
     read_until_prompt) while an attachment with suppression is open: the hold-back buffer was
     computed for the old prompt and is neither flushed nor re-examined"""
-    return _prompt_change_while_suppressing(line)
+    return impl == model and _prompt_change_while_suppressing(line)
 
 
 def shrink_candidates(line):
     if line.startswith("exec-log"):
         toks = line.split()
-        n0 = 5 if toks[1] == "uboot" else 3
+        n0 = 5 if toks[1] == "uboot" else 4 if toks[1] == "overlap" else 3
         for i in range(n0, len(toks)):
             if len(toks) - n0 > 1:
                 yield " ".join(toks[:i] + toks[i + 1:])
